@@ -1,7 +1,7 @@
 /-
   Line-protocol component for JRV.Model.JsonText:
 
-    jsontext S<hex utf-8 of the body>     the verdict of the text layer: nodata / wellformed / malformed
+    jsontext S<hex utf-8 of the body>     the verdict of the text layer: wellformed / malformed
 -/
 import JRV.Driver.Codec
 import JRV.Model.JsonText
@@ -17,7 +17,6 @@ def jsonTextC (toks : List String) : String :=
       match unhex? (String.ofList ds) with
       | some s =>
         match verdict s.toList with
-        | .noData => "nodata"
         | .wellFormed => "wellformed"
         | .malformed => "malformed"
       | none => "bad-op"
